@@ -99,3 +99,52 @@ package ir
 //@   ensures [monotone] forall i int :: 0 <= i && i < len(referenced) && old(referenced[i]) ==> referenced[i]
 //@   loop 1 invariant [monotone] forall i int :: 0 <= i && i < len(referenced) && old(referenced[i]) ==> referenced[i]
 //@   nopanic
+//
+// ---- override evaluation (C14) -------------------------------------------------
+//
+// Override initialisers are evaluated on float64 carriers. Whatever the carrier,
+// the value produced for `a OP b` must be the WGSL value of that operator (for
+// the comparison and logical operators: 1 for true, 0 for false, which is what
+// LiteralToFloat/makeOverrideLiteral use for bool). One clause per operator, so
+// each operator that is not implemented is a separately named obligation.
+//
+//@ func EvalBinaryFloat
+//@   mode bv
+//@   tags C14
+//@   ensures [add] op == BinaryAdd ==> same(result, left + right)
+//@   ensures [sub] op == BinarySubtract ==> same(result, left - right)
+//@   ensures [mul] op == BinaryMultiply ==> same(result, left * right)
+//@   ensures [div] op == BinaryDivide && !fpeq(right, 0.0) ==> same(result, left / right)
+//@   ensures [div-by-zero] op == BinaryDivide && fpeq(right, 0.0) && !isnan(left) && !fpeq(left, 0.0) ==> isinf(result)
+//@   ensures [mod] op == BinaryModulo && !isnan(left) && !isinf(left) && !isnan(right) && !isinf(right) && !fpeq(right, 0.0) ==> fpeq(result, left - right * fptrunc(left / right))
+//@   ensures [eq] op == BinaryEqual ==> fpeq(result, ite(fpeq(left, right), 1.0, 0.0))
+//@   ensures [ne] op == BinaryNotEqual ==> fpeq(result, ite(fpeq(left, right), 0.0, 1.0))
+//@   ensures [lt] op == BinaryLess ==> fpeq(result, ite(left < right, 1.0, 0.0))
+//@   ensures [le] op == BinaryLessEqual ==> fpeq(result, ite(left <= right, 1.0, 0.0))
+//@   ensures [gt] op == BinaryGreater ==> fpeq(result, ite(left > right, 1.0, 0.0))
+//@   ensures [ge] op == BinaryGreaterEqual ==> fpeq(result, ite(left >= right, 1.0, 0.0))
+//@   ensures [land] op == BinaryLogicalAnd ==> fpeq(result, ite(!fpeq(left, 0.0) && !fpeq(right, 0.0), 1.0, 0.0))
+//@   ensures [lor] op == BinaryLogicalOr ==> fpeq(result, ite(!fpeq(left, 0.0) || !fpeq(right, 0.0), 1.0, 0.0))
+//@   pure
+//@   nopanic
+//
+//@ func EvalUnaryFloat
+//@   mode bv
+//@   tags C14
+//@   ensures [neg] op == UnaryNegate ==> same(result, -val)
+//@   ensures [lnot] op == UnaryLogicalNot ==> fpeq(result, ite(fpeq(val, 0.0), 1.0, 0.0))
+//@   pure
+//@   nopanic
+//
+//@ func LiteralToFloat
+//@   mode bv
+//@   tags C14
+//@   ensures [f32] is(v, LiteralF32) ==> same(result, float64(float32(v.(LiteralF32))))
+//@   ensures [f64] is(v, LiteralF64) ==> same(result, float64(v.(LiteralF64)))
+//@   ensures [i32] is(v, LiteralI32) ==> same(result, float64(int32(v.(LiteralI32))))
+//@   ensures [u32] is(v, LiteralU32) ==> same(result, float64(uint32(v.(LiteralU32))))
+//@   ensures [bool] is(v, LiteralBool) ==> fpeq(result, ite(bool(v.(LiteralBool)), 1.0, 0.0))
+//@   ensures [aint] is(v, LiteralAbstractInt) ==> same(result, float64(int64(v.(LiteralAbstractInt))))
+//@   ensures [afloat] is(v, LiteralAbstractFloat) ==> same(result, float64(v.(LiteralAbstractFloat)))
+//@   pure
+//@   nopanic
